@@ -18,6 +18,10 @@ HARNESSES = [
     # pages, parent blocks and the control block in ONE first-fit heap that does not scrub memory (what old pages leave
     # behind is an environment answer): every history of small / large-unwritten / large-written acquires and releases
     dict(name="sbaheap", src=["sbaheap.c"], variant="asan", cflags=_P2K, deadline={"quick": 150, "thorough": 900}),
+    # the same at the shipped optimisation level with free()/posix_memalign() visible to the compiler under their own names
+    # (redirected at link time): what the object code leaves behind in pages it gives back, not what the source says
+    dict(name="sbaheap-o2", src=["sbaheap.c"], variant="asan", cflags=_P2K + ["-O2", "-DSBAHEAP_LINKWRAP=1"],
+         ldflags=["-Wl,--wrap=free,--wrap=posix_memalign"], deadline={"quick": 150, "thorough": 900}),
     # concurrent half: 2-3 threads on a multi-threaded allocator, every interleaving at the per-bin mutexes
     dict(name="sbamt", src=["sbamt.c"], variant="sched", wrap=True, deadline={"quick": 150, "thorough": 1500}),
     # free-running ThreadSanitizer twin of the scenario bodies (DESIGN 4.5): no wrapping, OS scheduler, decides nothing;
